@@ -18,10 +18,22 @@ const (
 )
 
 type task struct {
-	id    int
-	wake  chan struct{}
-	state int
+	id     int
+	wake   chan struct{}
+	state  int
+	waited int // scheduling points at which it was runnable and not chosen
 }
+
+// fairnessBound: no policy leaves a runnable task waiting for more than this
+// many scheduling points (real schedulers are unfair, not starving).
+const fairnessBound = 64
+
+// preemptTicks: a task that has computed this long without reaching a
+// scheduling point is pre-empted when others are runnable (the Go runtime
+// does that after about 10 ms: a spin on a flag ends).
+const preemptTicks = 10_000
+
+var lastSchedTick int64
 
 var (
 	tasks    []*task
@@ -93,10 +105,36 @@ func runnable(includeCur bool) []*task {
 
 func choose(rs []*task) *task {
 	journal.SchedPoints++
+	lastSchedTick = ticks
 	if len(rs) == 1 {
+		rs[0].waited = 0
 		return rs[0]
 	}
 	journal.SchedChoices++
+	pick := choosePolicy(rs)
+	// bounded unfairness
+	var starving *task
+	for _, t := range rs {
+		if t != pick && t.waited >= fairnessBound && (starving == nil || t.waited > starving.waited) {
+			starving = t
+		}
+	}
+	if starving != nil {
+		pick = starving
+		journal.FairnessPicks++
+	}
+	for _, t := range rs {
+		if t == pick {
+			t.waited = 0
+		} else {
+			t.waited++
+		}
+	}
+	journal.SchedHash = mixHash(journal.SchedHash, uint64(pick.id)+1)
+	return pick
+}
+
+func choosePolicy(rs []*task) *task {
 	var pick *task
 	switch step.SchedPolicy {
 	case "random":
@@ -153,7 +191,6 @@ func choose(rs []*task) *task {
 			pick = rs[0]
 		}
 	}
-	journal.SchedHash = mixHash(journal.SchedHash, uint64(pick.id)+1)
 	return pick
 }
 
@@ -244,13 +281,30 @@ func taskEnd(t *task) {
 
 // Go0..Go3 replace `go f(args...)`; function value and arguments are
 // evaluated by the caller, as the language specifies.
-func Go0(f func())                                    { spawn(f) }
-func Go1[A any](f func(A), a A)                       { spawn(func() { f(a) }) }
-func Go2[A, B any](f func(A, B), a A, b B)            { spawn(func() { f(a, b) }) }
-func Go3[A, B, C any](f func(A, B, C), a A, b B, c C) { spawn(func() { f(a, b, c) }) }
-func Go0R[R any](f func() R)                          { spawn(func() { f() }) }
-func Go1R[A, R any](f func(A) R, a A)                 { spawn(func() { f(a) }) }
-func Go2R[A, B, R any](f func(A, B) R, a A, b B)      { spawn(func() { f(a, b) }) }
+func Go0(f func())                                               { spawn(f) }
+func Go1[A any](f func(A), a A)                                  { spawn(func() { f(a) }) }
+func Go2[A, B any](f func(A, B), a A, b B)                       { spawn(func() { f(a, b) }) }
+func Go3[A, B, C any](f func(A, B, C), a A, b B, c C)            { spawn(func() { f(a, b, c) }) }
+func Go4[A, B, C, D any](f func(A, B, C, D), a A, b B, c C, d D) { spawn(func() { f(a, b, c, d) }) }
+func Go5[A, B, C, D, E any](f func(A, B, C, D, E), a A, b B, c C, d D, e E) {
+	spawn(func() { f(a, b, c, d, e) })
+}
+func Go6[A, B, C, D, E, F any](f func(A, B, C, D, E, F), a A, b B, c C, d D, e E, g F) {
+	spawn(func() { f(a, b, c, d, e, g) })
+}
+func Go7[A, B, C, D, E, F, G any](f func(A, B, C, D, E, F, G), a A, b B, c C, d D, e E, g F, h G) {
+	spawn(func() { f(a, b, c, d, e, g, h) })
+}
+func Go8[A, B, C, D, E, F, G, H any](f func(A, B, C, D, E, F, G, H), a A, b B, c C, d D, e E, g F, h G, i H) {
+	spawn(func() { f(a, b, c, d, e, g, h, i) })
+}
+func Go3R[A, B, C, R any](f func(A, B, C) R, a A, b B, c C) { spawn(func() { f(a, b, c) }) }
+func Go4R[A, B, C, D, R any](f func(A, B, C, D) R, a A, b B, c C, d D) {
+	spawn(func() { f(a, b, c, d) })
+}
+func Go0R[R any](f func() R)                     { spawn(func() { f() }) }
+func Go1R[A, R any](f func(A) R, a A)            { spawn(func() { f(a) }) }
+func Go2R[A, B, R any](f func(A, B) R, a A, b B) { spawn(func() { f(a, b) }) }
 
 // yieldOthers: the running task stays runnable but lets another runnable
 // task (if any) go first, whatever the policy says about staying.
